@@ -3,7 +3,7 @@
 import json, os
 HERE = os.path.dirname(os.path.dirname(os.path.abspath(__file__)))
 B = []
-def cfg(nidl=False, base=True, sw=False, regw=False, unix=False, life=0): return dict(nidl=nidl, base=base, sw=sw, regw=regw, unix=unix, lifeSec=life, certKeys=["k1", "k2", "k3"])
+def cfg(nidl=False, base=True, sw=False, regw=False, unix=False, life=0, nide=False): return dict(nidl=nidl, nide=nide, base=base, sw=sw, regw=regw, unix=unix, lifeSec=life, certKeys=["k1", "k2", "k3"])
 def NN(k): return dict(op="NewNode", k=k)
 def AP(k): return dict(op="AuthorizePending", k=k)
 def RG(k, kind, ex="none"): return dict(op="Rogue", k=k, kind=kind, ex=ex)
@@ -26,6 +26,11 @@ for nidl in (False, True):
     beh("f02_chains" + x, ["C02"], cfg(nidl=nidl, sw=True), [E("k1"), C("k1", chain="foreign"), C("k1", chain="self"), C("k1", chain="b1"), C("k1", priv=False), C("k1", nsig="kx"),
                                                               C("k1", nsig="none"), C("k1", pref="garbage"), C("k1", pref="next"), C("k1", pref="none"), RE, C("k1"), D("k1"),
                                                               E("k2"), C("k2"), C("k2", kind="fetch"), C("k2", kind="base")])
+# node ids nobody is registered under (answered with not-found or with an empty set), by a removed node holding a still valid certificate
+for nidl, nide in ((False, False), (True, False), (True, True)):
+    beh("f02_bogus_nid" + ("n" if nidl else "") + ("e" if nide else ""), ["C02"], cfg(nidl=nidl, nide=nide),
+        [E("k1"), E("k2"), C("k1", nid="bogus"), R("k1"), C("k1", nid="bogus"), C("k1", nid="bogus", nsig="kx"), C("k1", nid="bogus", nsig="none"), C("k1", nid="bogus", stt="forged"),
+         C("k2", ck="k1", nid="own"), C("k2", ck="k1", nid="bogus"), C("k2", ck="k1", nid="other"), C("k2", nid="bogus"), D("k2")])
 beh("f02_mixed", ["C02", "C14"], cfg(), [E("k1"), C("k1", kind="mixedFA"), C("k1", kind="mixedFA", ck="k2", chain="self"), C("k1", kind="mixedFA", priv=False), C("k1", kind="mixedAF"),
                                        C("k1", kind="mixedAF", ck="k3", chain="self"), D("k1")])
 beh("f14_aborts", ["C14"], cfg(), [E("k1"), M("clientAlert", "auth"), D("k1"), M("clientAlert", "fetch"), M("resetMidHello", "auth"), M("resetAfterHello", "fetch"), M("clientAlert", "pref"), D("k1"),
